@@ -1136,7 +1136,14 @@ func (p *parser) readGlyphList() []glyph.ID {
 			}
 
 		case itemInteger:
-			x, err := strconv.Atoi(item.val)
+			val := item.val
+			if len(val) > 1 && val[0] == '-' && !hyphenSeen && len(res) > 0 {
+				// A range of numeric glyph IDs, like "4-6", is lexed
+				// as the integers 4 and -6.
+				hyphenSeen = true
+				val = val[1:]
+			}
+			x, err := strconv.Atoi(val)
 			if err != nil || x < 0 || x >= 65536 || x >= p.fontInfo.NumGlyphs() {
 				p.fatal("invalid glyph id %q", item.val)
 			}
